@@ -209,6 +209,14 @@ def big_spec(rng):
             "data": {"mode": "smallint", "seed": 11}, "header_style": "amrex", "step": 1}
 
 
+def large_boxes_spec(rng):
+    """six level-0 boxes of 256 x 256 x 2 cells: a z-slice of one field writes six boxes of half a megabyte each"""
+    levels = [[[[256 * i, 0, 0], [256 * i + 255, 255, 1]] for i in range(6)]]
+    return {"ndims": 3, "fields": ["rho", "temp"], "time": 0.25, "geo_low": [0.0, -1.0, 0.0], "dx0": [0.125, 0.125, 0.5],
+            "grid0": [1536, 256, 2], "block": 2, "levels": levels, "layout": plotgen.random_layout(rng, levels, "files"),
+            "data": {"mode": "smallint", "seed": 12}, "header_style": "amrex", "step": 1}
+
+
 def run(ctx, rep, model=True):
     n = 6 if ctx.quick else 24
     for i in range(n):
@@ -265,6 +273,9 @@ def run(ctx, rep, model=True):
     # above the one-megabyte splitting threshold
     spec = big_spec(ctx.rng)
     run_case(ctx, rep, spec, 2, "L0:centre", 0.25, list(spec["fields"]), None, model, big=True)
+    # few boxes, each a large share of a megabyte
+    spec = large_boxes_spec(ctx.rng); rep.count("six-boxes-of-half-a-megabyte-in-the-slice")
+    run_case(ctx, rep, spec, 2, "L0:centre", 0.25, ["rho"], None, False, big=True)
 
 
 def replay(ctx, rep, obj, model=True):
